@@ -114,7 +114,7 @@ def brentsroot(f, bounds, tol=None, verbose=False, return_interval=False):
     fa = f(a)
     fb = f(b)
 
-    if fa * fb > 0:
+    if D.ar_numpy.sign(fa) * D.ar_numpy.sign(fb) > 0:
         return D.ar_numpy.asarray(numpy.inf, like=lower_bound), False
     if D.ar_numpy.abs(fa) < D.ar_numpy.abs(fb):
         a, b = b, a
@@ -153,7 +153,7 @@ def brentsroot(f, bounds, tol=None, verbose=False, return_interval=False):
         numiter += 1
         d = c
 
-        if fa * fs < 0:
+        if D.ar_numpy.sign(fa) * D.ar_numpy.sign(fs) < 0:
             b = s
             fb = fs
         else:
@@ -171,9 +171,9 @@ def brentsroot(f, bounds, tol=None, verbose=False, return_interval=False):
             print(f"[{numiter}] a={D.ar_numpy.to_numpy(a)}, b={D.ar_numpy.to_numpy(b)}, f(a)={D.ar_numpy.to_numpy(fa)}, f(b)={D.ar_numpy.to_numpy(fb)}")
     # success: the bracket [a, b] held a sign change (or an exact root at one end) throughout
     if return_interval:
-        return b, fa * fb <= 0, (a, b)
+        return b, D.ar_numpy.sign(fa) * D.ar_numpy.sign(fb) <= 0, (a, b)
     else:
-        return b, fa * fb <= 0
+        return b, D.ar_numpy.sign(fa) * D.ar_numpy.sign(fb) <= 0
 
 
 def brentsrootvec(f, bounds, tol=None, verbose=False, return_interval=False, accepts_mask=False):
@@ -253,8 +253,8 @@ def brentsrootvec(f, bounds, tol=None, verbose=False, return_interval=False, acc
     fs = D.ar_numpy.copy(fc)
 
     mflag = D.ar_numpy.ones_like(a, dtype=bool, like=upper_bound)
-    bracketed = fa * fb < 0
-    conv[fa * fb >= 0] = False
+    bracketed = D.ar_numpy.sign(fa) * D.ar_numpy.sign(fb) < 0
+    conv[D.ar_numpy.sign(fa) * D.ar_numpy.sign(fb) >= 0] = False
     not_conv = D.ar_numpy.logical_not(conv)
     numiter = D.ar_numpy.ones_like(a, dtype=D.autoray.to_backend_dtype('int64', like=upper_bound), like=upper_bound) * 3
     true_conv = D.ar_numpy.logical_or(bracketed, fb == 0)
@@ -294,7 +294,7 @@ def brentsrootvec(f, bounds, tol=None, verbose=False, return_interval=False, acc
         numiter[conv] = numiter[conv] + 1
         d = c
 
-        mask = fa * fs < 0
+        mask = D.ar_numpy.sign(fa) * D.ar_numpy.sign(fs) < 0
         mask[not_conv] = False
         b[mask] = s[mask]
         fb[mask] = fs[mask]
